@@ -74,11 +74,10 @@ func (l *Log) Overflowed() bool { return l.over }
 //
 //go:norace
 func CurTaskName() string {
-	c := current()
-	if c == nil || c.Sched == nil {
+	if gFree.Load() {
 		return ""
 	}
-	t := c.Sched.lookup(goid())
+	t := lookup(goid())
 	if t == nil {
 		return ""
 	}
